@@ -142,7 +142,7 @@ def run(ctx):
         re_ = ctx.coq(["C16_energy.v"], timeout=600)
     # end-to-end energy identity / reaction balance (on EFLib.C02_QuadForm) with the facts about
     # the source (thickness rule, quadrature rule, psi = 1/2 sigma.eps) regenerated every run
-    ree = rfl = rst = None
+    ree = rfl = rst = rrb = None
     try:
         en = T_en.translate(ctx.repo)
         ctx.obligation("translate:energy-facts", True, json.dumps(en))
@@ -160,6 +160,10 @@ def run(ctx):
             ree, rst = f_ee.result(), f_st.result()
             rfl = f_fl.result() if f_fl is not None else None
             cq.shutdown()
+            if ree.ok and rst.ok:
+                # reaction balance for rigid translations, end to end (needs the two files above)
+                ctx.copy_props("C16/C16_reaction.v")
+                rrb = ctx.coq(["C16_reaction.v"], timeout=300)
     except (TranslateError, SyntaxError, OSError) as ex:
         ctx.obligation("translate:energy-facts", False, str(ex))
         ctx.violation("translate:energy-facts", "translator rejected the energy-related source: %s (energy_identity_e2e is not re-proved; the implementation-side energy checks still run)" % ex,
@@ -248,7 +252,7 @@ def run(ctx):
                 report_name(cls, cfg, name, "advertised name without a working branch")
             if not (fails["WIRING_FAILURES"] or fails["BRANCH_FAILURES"]):
                 ctx.violation("proof-broken:C16_wiring.v", "C16_wiring.v fails although no witness was printed", {"log": rw.log[-3000:]}, found_input=False)
-    for r, f in ((rv, "C16_vonmises.v"), (rc, "C16_convert.v"), (re_, "C16_energy.v"), (ree, "C16_energy_e2e.v"), (rfl, "C16_fields.v"), (rst, "C16_strain.v")):
+    for r, f in ((rv, "C16_vonmises.v"), (rc, "C16_convert.v"), (re_, "C16_energy.v"), (ree, "C16_energy_e2e.v"), (rfl, "C16_fields.v"), (rst, "C16_strain.v"), (rrb, "C16_reaction.v")):
         if r is not None and not r.ok:
             # von Mises: look for a concrete component assignment where the code's formula differs
             found = None
